@@ -46,6 +46,7 @@ impl Vars {
     #[verifier::external_body] pub fn insert(&mut self, name: VString, h: Handle)
         ensures vars(final(self)) == vars(old(self)).insert(text_of(&name), h) { unimplemented!() }
 }
+#[verifier::external_body] pub fn vs_eq(a: &VString, b: &VString) -> (r: bool) ensures r == (text_of(a) == text_of(b)) { unimplemented!() }
 pub struct StackFrame { pub label: VString, pub variables: Vars }
 pub struct Stack(pub Vec<StackFrame>);
 pub uninterp spec fn special(label: Seq<char>) -> bool;          // SpecialScope::is_label_special_scope: <if>, <else>, <while> block frames
@@ -152,17 +153,19 @@ def build(repo):
     check_closed(bup, "VariableMapping::update")
     # ---- Display
     fd = src.fn(FILE, "fmt", "impl Display for Stack")
-    invd = ("invariant $K <= self.0@.len() - 1, written(f) == written(old(f)).push(Piece::Cause(self.0@.last().label)) + callers(self.0@, self.0@.len() - 1, $K as int) decreases $K")
+    invd = ("invariant $K <= self.0@.len(), self.0@.len() >= 1, written(f) == written(old(f)).push(Piece::Cause(self.0@.last().label)) + callers(self.0@, self.0@.len() - 1, $K as int) decreases $K")
     bd = translate(fd["body"], [
         Rule("R9", "return write ! ( f , \"<Empty Stack>\" ) ;", "return write_empty ( f ) ;", count=1, why="write! of a fixed text"),
         Rule("R9", "write ! ( f , \"\\t>> {}\" , first . label ) ? ;", "write_cause ( f , & first . label ) ? ;", count=1, why="write! of the `>>` line (innermost frame: where the failure happened)"),
         Rule("R9", "write ! ( f , \"\\r\\n\\t ^ {}\" , stack_frame . label ) ? ;", "write_caller ( f , & stack_frame . label ) ? ;", count=1, why="write! of one `^` caller line"),
-        Rule("R2", "for $x in self . 0 [ .. self . size ( ) - 1 ] . iter ( ) . rev ( ) { $$body }", rev_loop("d", invd, hi="self . size ( ) - 1"), count=1,
+        Rule("R2", "for $x in self . 0 [ .. self . size ( ) - 1 ] . iter ( ) . rev ( ) { $$body }", rev_loop("d", invd.replace("$K <= self.0@.len(),", "$K <= self.0@.len() - 1,"), hi="self . size ( ) - 1"),
              why="for over slice[..n-1].iter().rev() -> index counting down from n-1 (R8: n >= 1 here)"),
+        Rule("R2", "for $x in self . 0 . iter ( ) . rev ( ) { $$body }", rev_loop("d", invd), why="for over iter().rev() -> index counting down"),
+        Rule("R1", "$a . label == $b . label", "vs_eq ( & $a . label , & $b . label )", why="String equality (abstract)"),
         Rule("R1", "self . 0 . last ( )", "vec_last_frame ( & self . 0 )", why="slice::last with its std contract"),
     ], log, "Display for Stack")
     bd = Rule("R11", "write_caller ( f , & stack_frame . label ) ? ;", ["write_caller ( f , & stack_frame . label ) ? ;",
-              G("proof { lemma_callers_step(self.0@, self.0@.len() - 1, verif_k_d as int); }")], count=1, why="").apply(bd, log)
+              G("proof { if verif_k_d < self.0@.len() - 1 { lemma_callers_step(self.0@, self.0@.len() - 1, verif_k_d as int); } }")], count=1, why="").apply(bd, log)
     check_closed(bd, "Display for Stack")
     gen = header(log, f"{FILE}: Stack::register_variable_flags, register_variable_local, find_name, Display for Stack") + SPEC + f"""
 pub fn vec_last_frame(v: &Vec<StackFrame>) -> (r: Option<&StackFrame>) ensures v@.len() == 0 ==> r is None, v@.len() > 0 ==> r == Some(&v@.last()) {{ if v.len() == 0 {{ None }} else {{ Some(&v[v.len() - 1]) }} }}
